@@ -185,6 +185,21 @@ class BadHtml:
         raise exc
 
 
+class BadBool:
+    """An object whose truth value cannot be taken: the failure happens
+    when the engine *tests* an expression's value (tal:condition,
+    tal:omit-tag, not:), after the expression - a pipe, say - is done."""
+
+    def __init__(self, cls: str, sink, site) -> None:
+        self.cls, self.sink, self.site = cls, sink, site
+
+    def __bool__(self):
+        exc = ZOO[self.cls]()
+        if self.sink is not None:
+            self.sink.append((self.site, "bool", exc))
+        raise exc
+
+
 class BadIter:
     """An iterator that yields n items and then fails in __next__."""
 
@@ -239,6 +254,8 @@ def make_value(spec: dict, sink=None, site=None):
     v = spec["v"]
     if v == "badhtml":
         return BadHtml(spec["cls"], sink, site)
+    if v == "badbool":
+        return BadBool(spec["cls"], sink, site)
     if v == "baditer":
         return BadIter(spec["n"], spec["cls"], sink, site)
     if v == "badseq":
